@@ -1,6 +1,7 @@
 package drivers
 
 import (
+	crand "crypto/rand"
 	"context"
 	"encoding/base64"
 	"errors"
@@ -548,6 +549,12 @@ func runBubble(t *testing.T, f func(t *testing.T)) (deadlock string) {
 			panic(r)
 		}
 	}()
+	// Whatever the code under test draws from crypto/rand (refresh targets, network size estimation, ...) is the
+	// same stream in every run, so that a run can be repeated from its replay descriptor. Drivers whose scenarios
+	// carry a seed substitute a stream derived from it.
+	oldReader := crand.Reader
+	crand.Reader = sim.SeededReader(0x5eed)
+	defer func() { crand.Reader = oldReader }()
 	synctest.Test(t, f)
 	return ""
 }
